@@ -1,4 +1,5 @@
 import OnetVerif.Model.C19Core
+import OnetVerif.Model.C19Files
 import OnetVerif.Gen.C19
 /-! Property C19 — the definitions regenerated from the Go source (`Gen/C19.lean`, written by `harness/cmd/go2lean`
 on every check run from `simul/monitor/stats.go`) equal the hand-written model (`Model/C19Core.lean`).
@@ -128,4 +129,26 @@ theorem c19_gen_AverageValue_mismatch (a b : Gen.C19.Value α) (hn : a.name ≠ 
   have h1 : (a.name != a.name) = false := by simp
   have h2 : (b.name != a.name) = true := by simp; exact fun e => hn e.symm
   simp [Gen.C19.AverageValue, Gen.Rt.len, Gen.Rt.idx, Gen.Rt.foldReturn, h1, h2, genZero]
+/-! ### the write-out side (round 7): file names, header fields, value fields -/
+
+/-- `generateResultFileName` as translated is the model's `resultFileNameB` (which the driver's file names are made
+with): the global result set's file carries no index, every other file its bucket index -/
+theorem c19_gen_generateResultFileName_eq (name : List Nat) (index : Int) :
+    Gen.C19.generateResultFileName (α := α) name index = resultFileNameB name index := by
+  unfold Gen.C19.generateResultFileName resultFileNameB
+  by_cases h : index = 0 <;> simp [h]
+
+/-- `Value.HeaderFields` as translated: the name with the five suffixes, in the order `_min _max _avg _sum _dev` -/
+theorem c19_gen_Value_HeaderFields_eq (t : Gen.C19.Value α) :
+    Gen.C19.Value_HeaderFields t = headerFields t.name := by
+  simp [Gen.C19.Value_HeaderFields, headerFields, strBytes]
+
+/-- `Value.Values` as translated formats, in the same order, the five numbers the model's `Value.values` lists
+(`Min Max Avg Sum Dev` read the fields `min max newM sum dev`): column i of the values line is the statistic the
+header's column i names -/
+theorem c19_gen_Value_Values_eq (t : Gen.C19.Value α) (fmtF : α → List Nat) :
+    Gen.C19.Value_Values t fmtF = (Value.ofGen t).values.map fmtF := by
+  simp [Gen.C19.Value_Values, Gen.C19.Value_Min, Gen.C19.Value_Max, Gen.C19.Value_Avg, Gen.C19.Value_Sum,
+    Gen.C19.Value_Dev, Value.values, Value.ofGen]
+
 end C19
